@@ -1,5 +1,7 @@
 // Operand spaces per (space key, element type, tier): the stated finite alphabets of DESIGN.md 6.
 #pragma once
+#include <cfloat>
+
 #include "elementwise.hpp"
 
 namespace xv
@@ -398,6 +400,67 @@ namespace xv
         return s;
     }
 
+    // C13: subject tuples and companion values for the placement space of one op signature
+    inline std::vector<uint64_t> tiny_alpha(int t, const Tier& T)
+    {
+        if (t == XV_BOOL)
+            return { 0, 1 };
+        const int bits = xv_type_size[t] * 8;
+        if (is_int_type(t))
+        {
+            const uint64_t M = bits == 64 ? ~0ull : ((1ull << bits) - 1);
+            const uint64_t MIN = 1ull << (bits - 1);
+            std::vector<uint64_t> v = { 0, 1, M, MIN, MIN - 1, 2, 0x5555555555555555ull & M, 3, MIN + 1, M - 1, 0x0F0F0F0F0F0F0F0Full & M, 7 };
+            uint64_t s = T.seed + 11;
+            v.push_back(splitmix64(s) & M);
+            return v;
+        }
+        auto f = [&](double d)
+        { return t == XV_F32 ? to_bits<float>((float)d) : to_bits<double>(d); };
+        std::vector<uint64_t> v = { f(0.0), f(-0.0), f(1.0), f(-1.5), f(__builtin_nan("")), f(__builtin_inf()), f(-__builtin_inf()),
+                                    t == XV_F32 ? to_bits<float>(FLT_MAX) : to_bits<double>(DBL_MAX), t == XV_F32 ? 1ull : 1ull, f(16777217.0), f(0.3), f(-2.5), f(1e-30), f(3.5) };
+        return v;
+    }
+    inline SubSpace make_placement_space(const std::string& key, const xv_op& sig, int L, const Tier& T)
+    {
+        SubSpace s;
+        s.label = "placement: subject tuple in lane k among companions vs broadcast, L=" + std::to_string(L);
+        s.al.resize((size_t)sig.nin);
+        s.placement_L = L;
+        std::vector<std::vector<uint64_t>> alph((size_t)sig.nin);
+        for (int k = 0; k < sig.nin; ++k)
+        {
+            alph[(size_t)k] = tiny_alpha(sig.in_t[k], T);
+            if (key == "shift_v" && k == 1)
+                alph[(size_t)k] = { 0, 1, (uint64_t)(xv_type_size[sig.elem] * 8 - 1), 3 };
+            if (key == "ldexp" && k == 1)
+                alph[(size_t)k] = { 0, 1, (uint64_t)-1 & (sig.in_t[1] == XV_I32 ? 0xFFFFFFFFull : ~0ull), 10, 100 };
+            s.place_comp.push_back(alph[(size_t)k]);
+        }
+        // subject tuples: full product for one operand, 8^2 for two, 5^3 for three
+        const size_t cap = sig.nin == 1 ? 64 : sig.nin == 2 ? 8 : 5;
+        std::vector<size_t> idx((size_t)sig.nin, 0);
+        for (;;)
+        {
+            std::vector<uint64_t> tup;
+            for (int k = 0; k < sig.nin; ++k)
+                tup.push_back(alph[(size_t)k][idx[(size_t)k]]);
+            s.place_subj.push_back(tup);
+            int k = sig.nin - 1;
+            while (k >= 0)
+            {
+                if (++idx[(size_t)k] < std::min(cap, alph[(size_t)k].size()))
+                    break;
+                idx[(size_t)k] = 0;
+                --k;
+            }
+            if (k < 0)
+                break;
+        }
+        s.finish();
+        return s;
+    }
+
     inline std::vector<long> make_params(int kind, int elem)
     {
         std::vector<long> p;
@@ -414,7 +477,7 @@ namespace xv
     }
 
     // Build the plan for every op exported under property `prop` by the loaded modules.
-    inline void build_plan(Explorer& E, const std::string& prop, const Tier& T, const std::set<std::string>& only_ops = {})
+    inline void build_plan(Explorer& E, const std::string& prop, const Tier& T, const std::set<std::string>& only_ops = {}, bool placement = false)
     {
         // union of (op name, elem) over modules
         std::map<std::pair<std::string, int>, std::vector<Impl>> impls;
@@ -448,6 +511,47 @@ namespace xv
                     exit(2);
                 }
             const std::string& skey = (!is_int_type(sig.elem) && !spec->fp_space.empty()) ? spec->fp_space : spec->space;
+            if (placement)
+            {
+                if (spec->batchwise || skey == "witness" || skey == "bytes" || skey == "mask1" || skey == "mask2" || skey == "mask2s")
+                    continue; // not element-wise
+                std::set<int> Ls;
+                for (auto& im : kv.second)
+                    Ls.insert(im.op->lanes);
+                std::vector<long> params = make_params(spec->param_kind, sig.elem);
+                if (params.size() > 3)
+                    params = { params[0], params[1], params.back() };
+                for (int L : Ls)
+                {
+                    if (L < 2)
+                        continue;
+                    std::string gk = "place|" + skey + "|" + std::to_string(sig.elem) + "|L" + std::to_string(L) + "|" + std::to_string(sig.nin);
+                    for (int k = 0; k < sig.nin; ++k)
+                        gk += "," + std::to_string(sig.in_t[k]);
+                    gk += "|" + std::to_string(sig.nout) + "," + std::to_string(sig.out_t[0]) + "," + std::to_string(sig.out_t[1]);
+                    Group*& g = gmap[gk];
+                    if (!g)
+                    {
+                        E.groups.emplace_back(new Group);
+                        g = E.groups.back().get();
+                        g->sig = sig;
+                        g->sp = make_placement_space(skey, sig, L, T);
+                    }
+                    for (long p : params)
+                    {
+                        std::unique_ptr<OpInst> oi(new OpInst);
+                        oi->spec = spec;
+                        oi->name = name;
+                        oi->prop = "C13";
+                        oi->param = p;
+                        for (auto& im : kv.second)
+                            if (im.op->lanes == L)
+                                oi->impls.push_back(im);
+                        g->ops.push_back(std::move(oi));
+                    }
+                }
+                continue;
+            }
             if (skey == "witness")
             {
                 // lane-aware: one group per batch size, holding the implementations with that many lanes
